@@ -26,6 +26,10 @@ def run(ctx):
     rep = Report()
     runlevel.with_extra(ctx, "c13stall", lambda: stalling_noisy_specs(ctx))
     runlevel.scripted_controller_runs(ctx, "c13script", 12 if ctx.quick else 120)
+    # stalling runs with mesh acceleration explicitly switched OFF (mostly tiny / negative scripted improvements, so that polls fail while
+    # the history stalls): a failed poll must halve the mesh, never quarter it
+    runlevel.scripted_controller_runs(ctx, "c13noaccel", 5 if ctx.quick else 40, force_options={"accelerate_mesh": False, "tol_mesh": 1e-6},
+                                      weights=[0.4, 0.3, 6, 3, 0.3, 0.2, 0.2])
     stats, samples = runlevel.ctl_replay(ctx, rep, "C13")
     traces = runlevel.get_pool(ctx)
     rep.coverage = {
